@@ -123,6 +123,7 @@ func (srv *Server) Serve(listener net.Listener) error {
 }
 
 func (srv *Server) serve(ctx context.Context, conn net.Conn) error {
+	conn = verifConn(conn)
 	ctx = setTypeInfo(ctx, srv.typeMap())
 	ctx = setRemoteAddress(ctx, conn.RemoteAddr())
 	defer conn.Close()
